@@ -59,6 +59,7 @@ class Contract:
     modifies = ()           # heap keys that may change; or dict key -> lambda(c0, a, r) "object r may change"
     inline_ok = False
     pure = False
+    inout = ()              # names of container parameters the function mutates in place (a.<name>__out in post)
 
     def __init__(self, **kw):
         for k, v in kw.items():
@@ -165,6 +166,8 @@ class Contract:
         # havoc
         self.havoc(eng, st, c0, a)
         c1 = Ctx(eng, dict(st.heap))
+        for pname in self.inout:
+            a[pname + "__out"] = make_symbolic(eng, st, pname + "_out", (self.params or {}).get(pname, "dict:val"))
         # result
         y = None
         v = fresh("y", Val)
@@ -183,6 +186,12 @@ class Contract:
                                                           self.result)
         for name, f in self.post(c0, c1, a, res).items():
             st.define(f)
+        for pname in self.inout:
+            arg = a[pname]
+            if arg.wb is None:
+                raise Unsupported("in/out argument %s of %s has no origin" % (pname, self.short()))
+            out = a[pname + "__out"]
+            arg.wb(st, SV(out.k, out.t, cls=arg.cls, x=out.x))
         return res
 
     yield_cls = None
@@ -234,6 +243,11 @@ class Contract:
                     raise Unsupported("contract %s: no spec for parameter %s" % (self.target, n))
             a[n] = self.make_value(eng, st, n, spec)
         st.env = dict(a)
+        for pname in self.inout:
+            v0 = a[pname]
+            st.env[pname] = SV(v0.k, v0.t, cls=v0.cls, x=v0.x,
+                               wb=lambda st2, new, pname=pname: st2.env.__setitem__(
+                                   pname, SV(new.k, new.t, cls=new.cls, x=new.x, wb=st2.env[pname].wb)))
         c0 = Ctx(eng, dict(st.heap))
         for name, f in self.pre(c0, a).items():
             st.assume(f, "pre." + name)
@@ -279,6 +293,10 @@ class Contract:
                                        info={"path": s.trace, "exception": e}))
                 # exception safety clauses
                 c1 = Ctx(eng, dict(s.heap))
+                if self.inout:
+                    a = Args(a)
+                    for pname in self.inout:
+                        a[pname + "__out"] = s.env.get(pname, a[pname])
                 for name, f in self.on_raise(c0, c1, a, e).items():
                     obls.append(Obligation("onraise.%s/%s" % (name, tag), s.assumptions(), f, info={"path": s.trace}))
                 continue
@@ -299,6 +317,10 @@ class Contract:
                 obls.append(Obligation("raises.%s.required/%s" % (en, tag), s.assumptions(), z3.Not(cond),
                                        info={"path": s.trace}))
             c1 = Ctx(eng, dict(s.heap))
+            if self.inout:
+                a = Args(a)
+                for pname in self.inout:
+                    a[pname + "__out"] = s.env[pname]
             if is_gen or self.yields(c0, a, fresh("probe", Val)) is not None:
                 bags = list(s.bags)
                 if not is_gen:
@@ -459,6 +481,8 @@ def make_symbolic(eng, st, name, spec):
         return sv_val(v)
     if spec == "set":
         return sv_set(fresh(name, SetSort))
+    if spec == "dict:val":
+        return SV("dict", fresh(name + "_map", z3.ArraySort(Val, Val)), x=(fresh(name + "_dom", SetSort), "val"))
     if spec.startswith("ref:"):
         return sv_ref(fresh(name, Int), cls=spec[4:])
     if spec.startswith("optref:"):
@@ -579,7 +603,12 @@ class LoopSpec:
                 old = eng.field_array(st, sub)
                 st.heap[sub] = fresh("HL_" + sub.replace("#", "_").replace("$", "S").replace(".", "_"), old.sort())
         for name, spec in self.carried.items():
-            st.env[name] = make_symbolic(eng, st, name, spec)
+            v = make_symbolic(eng, st, name, spec)
+            if v.k in ("set", "list", "dict", "bytes", "seq"):
+                v = SV(v.k, v.t, cls=v.cls, x=v.x,
+                       wb=lambda st2, new, name=name: st2.env.__setitem__(
+                           name, SV(new.k, new.t, cls=new.cls, x=new.x, wb=st2.env[name].wb)))
+            st.env[name] = v
 
     def _assert_inv(self, eng, st, L, label):
         for name, f in self.inv(L).items():
